@@ -31,6 +31,10 @@ pub enum SOp {
     Truncate(u8),
     /// purge up to (first + k)
     Purge(u8),
+    /// purge up to an index behind everything the store holds (what openraft does after
+    /// installing a snapshot on a follower whose log is short or empty): the log becomes
+    /// empty and the next append starts behind the purge point
+    PurgeAhead,
     Vote(u64),
     Commit(bool),
     /// clean drop of all handles, then reopen
@@ -165,6 +169,8 @@ fn applicable(r: &RefStore, op: &SOp) -> bool {
             r.log.contains_key(&(first + *k as u64))
         }
         SOp::Commit(true) => !r.log.is_empty(),
+        // a committed id in front of the purge point makes no sense to openraft
+        SOp::PurgeAhead => r.committed.is_none(),
         _ => true,
     }
 }
@@ -219,6 +225,13 @@ pub fn run_history(dir: &Path, ops: &[SOp]) -> Result<Option<String>, String> {
                     r.purged = Some(upto);
                     st.purge(lid(t, upto)).await.map_err(|e| e.to_string())
                 }
+                SOp::PurgeAhead => {
+                    let upto = r.next + 1;
+                    r.log.clear();
+                    r.purged = Some(upto);
+                    r.next = upto + 1;
+                    st.purge(lid(r.term, upto)).await.map_err(|e| e.to_string())
+                }
                 SOp::Vote(t) => {
                     r.vote = Some(*t);
                     st.save_vote(&Vote { leader_id: LeaderId { term: *t, node_id: 1 }, committed: true }).await.map_err(|e| e.to_string())
@@ -264,6 +277,10 @@ pub fn run_history(dir: &Path, ops: &[SOp]) -> Result<Option<String>, String> {
                     }
                     shadow.purged = Some(p);
                 }
+            }
+            SOp::PurgeAhead => {
+                shadow.log.clear();
+                shadow.purged = r.purged;
             }
             SOp::Vote(_) => shadow.vote = r.vote,
             SOp::Commit(_) => shadow.committed = r.committed,
@@ -311,6 +328,7 @@ pub fn enum_histories(depth: usize, max_restarts: usize) -> Vec<Vec<SOp>> {
         SOp::Truncate(1),
         SOp::Purge(0),
         SOp::Purge(1),
+        SOp::PurgeAhead,
         SOp::StopStart,
         SOp::KillStart,
     ];
@@ -507,7 +525,7 @@ fn check_c21(tier: &str) -> i32 {
         samples,
         cap.is_none(),
         cap.clone(),
-        format!("every history of exactly {} store operations over {{append 1|2 entries (blank / normal / membership payloads), truncate last|last-1, purge first|first+1, save_vote 1|2, save_committed last|None, stop+start, kill+start}} with at least one and at most {} restarts whose operations satisfy the storage API preconditions ({} of {} enumerated histories were applicable), executed on the real WalLogStore; after every operation and every restart get_log_state, read_vote, read_committed and the full entry list are compared with a reference store; plus {} address-book histories through the address-book functions of node.rs (cut out of the file at build time: PeerAddrRecord, load_peer_addr_records, append_peer_addr_record, persist_peer_addr_if_needed) over {{new address, same address again, stop+start, kill+start}}; plus every append of 2..3 (thorough 4) entries behind 0..2 acknowledged ones, killed before each of its WAL records (engine calls of the batch), reopened: the store must hold the acknowledged log plus a prefix of the batch", depth, if thorough { 3 } else { 2 }, executed, total, ab_exec),
+        format!("every history of exactly {} store operations over {{append 1|2 entries (blank / normal / membership payloads), truncate last|last-1, purge first|first+1, purge behind everything held, save_vote 1|2, save_committed last|None, stop+start, kill+start}} with at least one and at most {} restarts whose operations satisfy the storage API preconditions ({} of {} enumerated histories were applicable), executed on the real WalLogStore; after every operation and every restart get_log_state, read_vote, read_committed and the full entry list are compared with a reference store; plus {} address-book histories through the address-book functions of node.rs (cut out of the file at build time: PeerAddrRecord, load_peer_addr_records, append_peer_addr_record, persist_peer_addr_if_needed) over {{new address, same address again, stop+start, kill+start}}; plus every append of 2..3 (thorough 4) entries behind 0..2 acknowledged ones, killed before each of its WAL records (engine calls of the batch), reopened: the store must hold the acknowledged log plus a prefix of the batch", depth, if thorough { 3 } else { 2 }, executed, total, ab_exec),
         vec!["openraft types/traits are stand-ins with the signatures of openraft 0.10 (storage v2); tokio stand-in runs block_in_place inline; bincode stand-in", "octopii's vendored engine copy runs with its real 10 MiB geometry", "kill = handles forgotten without running destructors in the same process (the page cache survives, as for a killed process)"],
         nviol as u64,
         wall,
